@@ -62,12 +62,24 @@ Print Assumptions C19_text_call_spec.
    may change); set-item (locked) -- any threads, calls, schedule, file changes: every cache item is a
    correct result for the versions its call read, every call returns get_data_spec of the versions IT
    read, and (fe12c42) one version per file. ---- *)
-Theorem C19_yaml_concurrent : forall table tree once w calls sch,
+Theorem C19_yaml_concurrent : forall table tree once w0 calls sch,
   let s := run (option yitem) (list nat) yls unit R nat yls_begin (yaml_prog table tree once) yret bump
-               (init (option yitem) (list nat) yls unit R (yls_begin tt) None w calls) sch in
-  cache_valid table (obj s) /\ forall t, In t (threads s) -> Forall (Ry table once) (res t).
+               (init (option yitem) (list nat) yls unit R (yls_begin tt) None w0 calls) sch in
+  cache_valid table (obj s) /\
+  forall t, In t (threads s) -> Forall (Ry table tree once (in_run w0 sch)) (res t).
 Proof. exact yaml_concurrent. Qed.
 Print Assumptions C19_yaml_concurrent.
+
+(* hence, with at most one file change during the run, every answer of the fixed code is get_data_spec
+   of a file state that was present during the run: a sequential answer *)
+Theorem C19_yaml_answers_are_sequential : forall table tree w0 calls sch,
+  length (yenvs sch) <= 1 ->
+  let s := run (option yitem) (list nat) yls unit R nat yls_begin (yaml_prog table tree true) yret bump
+               (init (option yitem) (list nat) yls unit R (yls_begin tt) None w0 calls) sch in
+  forall t, In t (threads s) -> forall r, In r (res t) ->
+    In r (map (fun w => flat (yspec table (snapshot_of tree w))) (worlds_of w0 (yenvs sch))).
+Proof. exact yaml_results_in_specs. Qed.
+Print Assumptions C19_yaml_answers_are_sequential.
 
 (* with a single file change, versions that agree per file and stem from the state before or after the
    change form exactly one of the two states: the call's answer is a sequential answer *)
